@@ -49,7 +49,9 @@ def _faulted(job):
 
 RICH = (b"# Title\n\n- item one\n  - nested a\n    - deep b   \n  - nested c\n- item two\n\n> quote\n> - list in quote\n>   more\n\n"
         b"1. one\n   ```text\n   code\n   ```\n2. two\n\n<div>\nhtml\n</div>\n\ntext\twith tab and *emphasis* and [link](/u).   \n")
-RICH2 = b"# Other\n\n* a\n* b\n  * c\n\ntext\twith a tab\n\n> - q\n>   - r\n"
+RICH += b"\n\n\nAfter two blank lines\n\n***\n\n~~~text\ntilde\n~~~\n\nSetext two\n---\n\n+ plus\n\n## Title\n\n## Title\n"
+RICH2 = (b"# Other\n\n* a\n* b\n  * c\n\ntext\twith a tab\n\n> - q\n>   - r\n\nOne blank line above.\n\n---\n\n```text\nbacktick\n```\n\n## Sub\n\n- dash\n"
+         b"\n[link]: /u\n\n[link] and *e*\n")
 
 
 def _iso_run(job):
